@@ -187,7 +187,7 @@ Lemma do_reconnect_cases imm s :
   let s1 := set_n (b_n s + 1) (set_outq false (set_sock NoSock (set_cs BConnecting s))) in
   (b_script s = [] /\ do_reconnect imm s = RcEnd s1 [EvAttempt (b_now s) imm])
   \/ (exists r, b_script s = Refused :: r /\
-        do_reconnect imm s = RcFail (set_script r s1) [EvAttempt (b_now s) imm; EvFail (b_now s)])
+        do_reconnect imm s = RcFail (set_script r s1) [EvAttempt (b_now s) imm])
   \/ (exists o r, b_script s = o :: r /\ o <> Refused /\
         do_reconnect imm s = RcOk (set_sock (Pending o) (set_script r s1)) [EvAttempt (b_now s) imm]).
 Proof.
